@@ -108,6 +108,9 @@ func checkC12(rep *core.Report) {
 	r7 := rep.Rule("R12.7", "pool uniformity: New and every Put use the same size option; every Get is asserted to []byte", 10)
 	r8 := rep.Rule("R12.8", "decoded objects do not outlive their iteration; decoders do not recycle buffers", 5)
 	checkPoolPerPipeline(prog, r6)
+	for _, pl := range findPipelines(prog) {
+		checkQueuedBufferKept(prog, r5, pl)
+	}
 	r9 := rep.Rule("R12.9", "nothing a worker runs (decode, encode, publish) writes unsynchronised package-level state", 1)
 	{
 		var workers []*ssa.Function
